@@ -65,6 +65,9 @@ type EngineOpts struct {
 	NoLogs      bool
 	OpenRGBPort int
 	ReturnGuard time.Duration
+	// BusySinkMs > 0: when the event stream ends, the reader of the device's MIDI output is busy for this long (the
+	// output queue is full and nothing is taken from it), then reads on.
+	BusySinkMs int
 }
 
 // axisInfo collects AbsInfo for all axes of a description.
@@ -248,6 +251,9 @@ func RunDevice(cfg config.Config, d *Desc, steps []Step, opts EngineOpts) (res R
 	if !alive {
 		return res
 	}
+	if opts.BusySinkMs > 0 {
+		return busySinkDisconnect(res, opts, in, out, done)
+	}
 	close(in)
 	select {
 	case p := <-done:
@@ -262,6 +268,85 @@ func RunDevice(cfg config.Config, d *Desc, steps []Step, opts EngineOpts) (res R
 	runtime.Gosched()
 	res.Late = drain(out)
 	return res
+}
+
+// busySinkDisconnect ends the event stream while nothing takes the device's output: the queue is filled up
+// with marker messages of the harness, stays full for BusySinkMs, and is read again afterwards. Tail is what
+// had been emitted when ProcessEvents returned, Late what was emitted after that.
+func busySinkDisconnect(res RunResult, opts EngineOpts, in chan *input.InputEvent, out chan midi.Event, done chan string) RunResult {
+	b := busyDisconnect(in, out, done, opts.BusySinkMs, opts.ReturnGuard)
+	res.Tail, res.Late, res.Panic, res.Returned = b.Tail, b.Late, b.Panic, b.Returned
+	if b.Stuck {
+		res.Stuck = allStacks()
+	}
+	return res
+}
+
+type busyResult struct {
+	Tail, Late     [][]byte
+	Panic          string
+	Returned       bool
+	Stuck          bool
+	EndedWhileFull bool // ProcessEvents returned while the queue was still full
+	ReturnedIn     time.Duration
+}
+
+func busyDisconnect(in chan *input.InputEvent, out chan midi.Event, done chan string, busyMs int, guardFor time.Duration) (r busyResult) {
+	filler := midi.Event{0xFE}
+	isFiller := func(e midi.Event) bool { return len(e) == 1 && e[0] == 0xFE }
+	take := func(dst *[][]byte) {
+		for {
+			select {
+			case e := <-out:
+				if !isFiller(e) {
+					*dst = append(*dst, append([]byte(nil), e...))
+				}
+			default:
+				return
+			}
+		}
+	}
+fill:
+	for {
+		select {
+		case out <- filler:
+		default:
+			break fill
+		}
+	}
+	t0 := time.Now()
+	close(in)
+	ended := false
+	select {
+	case p := <-done: // returned although nobody could have received anything it still had to send
+		r.Panic, r.Returned, ended, r.EndedWhileFull = p, p == "", true, true
+	case <-time.After(time.Duration(busyMs) * time.Millisecond):
+	}
+	guard := time.After(guardFor)
+	for !ended {
+		select {
+		case e := <-out:
+			if !isFiller(e) {
+				r.Tail = append(r.Tail, append([]byte(nil), e...))
+			}
+		case p := <-done:
+			r.Panic, r.Returned, ended = p, p == "", true
+		case <-guard:
+			r.Stuck = true
+			return r
+		}
+	}
+	r.ReturnedIn = time.Since(t0)
+	if r.EndedWhileFull {
+		// the queue held nothing but markers when ProcessEvents returned: whatever shows up now was emitted after the return
+		take(&r.Late)
+	} else {
+		take(&r.Tail)
+	}
+	// nothing may be emitted once processing has ended
+	time.Sleep(150 * time.Millisecond)
+	take(&r.Late)
+	return r
 }
 
 func allStacks() string {
